@@ -32,6 +32,9 @@ type Entry struct {
 
 	Encode func(v reflect.Value) ([]byte, error)
 	Decode func(b []byte, hint reflect.Value) Decoded
+	// DecodeInto, when set, decodes b into the existing value p points to (the codec's read function takes a target
+	// object); used to check that a reused target ends up holding exactly the decoded message.
+	DecodeInto func(b []byte, p reflect.Value) error
 
 	// Transmitted lists the top-level fields this codec carries; nil means all
 	// exported fields. (Cast types and gateway request/response halves carry a subset.)
